@@ -144,6 +144,9 @@ func CheckMain(args []string) int {
 		*tier = t
 	}
 	seed, _ := strconv.Atoi(os.Getenv("VERIF_SEED"))
+	if *tier == "thorough" {
+		BlockCovers = true
+	}
 	t0 := time.Now()
 	eng, err := Load(*repo, filepath.Join(*root, "extern"), []string{"./..."})
 	if err != nil {
@@ -200,6 +203,7 @@ func CheckMain(args []string) int {
 	var violations []OblResult
 	var known []string
 	var disagreements []string
+	var deadReturns []string
 	for _, r := range res {
 		solverMs += r.Winner.Ms
 		if r.O.Cover {
@@ -207,7 +211,9 @@ func CheckMain(args []string) int {
 			if r.Status == "cover-unknown" {
 				nCoverUnknown++
 			}
-			if r.Status == "cover-vacuous" {
+			if r.Status == "cover-vacuous" && r.O.Advisory {
+				deadReturns = append(deadReturns, r.O.Name+" ("+r.O.Pos+")")
+			} else if r.Status == "cover-vacuous" {
 				violations = append(violations, r)
 			}
 			continue
@@ -307,6 +313,7 @@ func CheckMain(args []string) int {
 		"checker_cmd":  fmt.Sprintf("govc check -property %s -tier %s (z3 4.8.12 | z3-new 5.1.0 | cvc5 raced, %d s per obligation)", *prop, *tier, secs),
 		"trusted_base": trusted, "functions_under_contract": fuc, "by_solver": bySolver, "solver_time_s": float64(solverMs) / 1000,
 		"vacuity_covers": nCover, "vacuity_covers_unknown": nCoverUnknown,
+		"unreachable_return_points": deadReturns,
 		"samples": samples, "undecided": undecided, "known_findings": known, "exhaustive": false,
 		"explanation": "every obligation generated from the SSA of the functions under contract was raced on three SMT solvers; unsat = discharged",
 		"evaluations": nObl, "distinct_nontrivial": nDis,
